@@ -14,6 +14,10 @@ SHARED = [
      "trusted": "Props/CppNumeric.lean is an inventory (regex over the comment-stripped C++ sources) of integer initialisations, "
                 "casts, `float` tokens, integer-literal divisions and tolerance vocabulary; it shows the engine never narrows a "
                 "real-valued quantity, not that `double` arithmetic is exact"},
+    # no `static` / `thread_local` state in the engine sources
+    {"target": "Strengths.Props.CppStatics", "file": "Strengths/Props/CppStatics.lean", "groups": ["CppNumeric"],
+     "props": ["C01", "C02", "C03", "C04", "C07", "C08", "C09", "C10", "C11", "C14", "C15", "C16"],
+     "trusted": "Props/CppStatics.lean: a regex inventory of the `static` / `thread_local` keywords of the engine sources"},
 ]
 
 
